@@ -13,64 +13,7 @@
      BADLINE <lineno> <text>
      DONE <cases> <lines> <observations> *)
 open Tables_model
-
-(* ---------- conversions ---------- *)
-let rec pos_of_int (i : int) : positive =
-  if i = 1 then XH else if i land 1 = 0 then XO (pos_of_int (i lsr 1)) else XI (pos_of_int (i lsr 1))
-let n_of_int (i : int) : n = if i = 0 then N0 else Npos (pos_of_int i)
-let rec int_of_pos = function XH -> 1 | XO p -> 2 * int_of_pos p | XI p -> 2 * int_of_pos p + 1
-let int_of_n = function N0 -> 0 | Npos p -> int_of_pos p
-let n10 = n_of_int 10
-let n_of_dec (s : string) : n =
-  let acc = ref N0 in
-  String.iter (fun c -> acc := N.add (N.mul !acc n10) (n_of_int (Char.code c - 48))) s; !acc
-let rec dec_of_n (x : n) : string =
-  if N.ltb x n10 then string_of_int (int_of_n x)
-  else dec_of_n (N.div x n10) ^ string_of_int (int_of_n (N.modulo x n10))
-let rec nat_of_int (i : int) : nat = if i <= 0 then O else S (nat_of_int (i - 1))
-let rec int_of_nat = function O -> 0 | S k -> 1 + int_of_nat k
-
-(* ---------- names and values ---------- *)
-let name_of_string (s : string) : name =
-  if s = "/" || s = "" then []
-  else List.map n_of_dec (List.tl (String.split_on_char '/' s))
-let string_of_name (nm : name) : string =
-  if nm = [] then "/" else String.concat "" (List.map (fun c -> "/" ^ dec_of_n c) nm)
-
-let string_of_nh (l : (n * n) list) : string =
-  if l = [] then "-" else String.concat "," (List.map (fun (f, c) -> dec_of_n f ^ ":" ^ dec_of_n c) l)
-let nh_of_string (s : string) : (n * n) list =
-  if s = "-" || s = "" then []
-  else List.map (fun it -> match String.split_on_char ':' it with
-                           | [f; c] -> (n_of_dec f, n_of_dec c)
-                           | _ -> failwith ("bad nexthop " ^ it)) (String.split_on_char ',' s)
-let sort_csv (s : string) : string =
-  if s = "-" then s else String.concat "," (List.sort compare (String.split_on_char ',' s))
-let string_of_strat = function None -> "-" | Some s -> dec_of_n s
-let strat_of_string s = if s = "-" then None else Some (n_of_dec s)
-
-let join_sorted (items : string list) : string =
-  if items = [] then "-" else String.concat ";" (List.sort compare items)
-let items_of (s : string) : string list = if s = "-" || s = "" then [] else String.split_on_char ';' s
-(* "name=a=b" -> [name; a; b] *)
-let fields_of (it : string) : string list = String.split_on_char '=' it
-
-(* listing "name=nh;..." with the next hops of every entry sorted *)
-let canon_listing (s : string) : string =
-  join_sorted (List.map (fun it -> match fields_of it with
-                                   | [nm; v] -> nm ^ "=" ^ sort_csv v
-                                   | _ -> it) (items_of s))
-
-let fib_listing_string (l : (name * (n * n) list) list) : string =
-  join_sorted (List.map (fun (nm, nh) -> string_of_name nm ^ "=" ^ string_of_nh nh) l)
-let strat_listing_string (l : (name * n) list) : string =
-  join_sorted (List.map (fun (nm, s) -> string_of_name nm ^ "=" ^ dec_of_n s) l)
-let nodes_string (t : fent amap) : string =
-  join_sorted (List.map (fun (nm, e) -> string_of_name nm ^ "=" ^ string_of_nh e.nhs ^ "=" ^ string_of_strat e.strat) t)
-let ent_map_of_string (s : string) : fent amap =
-  List.map (fun it -> match fields_of it with
-                      | [nm; nh; st] -> (name_of_string nm, { nhs = nh_of_string nh; strat = strat_of_string st })
-                      | _ -> failwith ("bad node " ^ it)) (items_of s)
+open Conv
 
 (* ---------- state of the current case ---------- *)
 type st = {
@@ -134,7 +77,8 @@ let handle_obs label kind (value : string) =
       if List.length vals <> List.length cur.universe then Printf.printf "BADLINE %d nh arity\n" !lineno
       else List.iter2 (fun nm v ->
           let mv = string_of_nh (model_find_nh label nm) in
-          if mv <> v then diverge label "nh" (string_of_name nm ^ "=" ^ mv) (string_of_name nm ^ "=" ^ v);
+          let differ = if cur.kind = "fib" then mv <> v else sort_csv mv <> sort_csv v in
+          if differ then diverge label "nh" (string_of_name nm ^ "=" ^ mv) (string_of_name nm ^ "=" ^ v);
           let sv = if cur.kind = "fib" then string_of_nh (spec_find_nh cur.spec nm)
                    else Rib_glue.want_nh cur.rib nm in
           if sort_csv sv <> sort_csv v then oracle label "nh" ~name:(string_of_name nm) (sort_csv sv) (sort_csv v))
@@ -151,7 +95,8 @@ let handle_obs label kind (value : string) =
           cur.universe vals
   | "fib" ->
       let mv = fib_listing_string (list_fib (model_entries label)) in
-      if mv <> join_sorted (items_of value) then diverge label "fib" mv value;
+      let differ = if cur.kind = "fib" then mv <> join_sorted (items_of value) else canon_listing mv <> canon_listing value in
+      if differ then diverge label "fib" mv value;
       let sv = if cur.kind = "fib" then canon_listing (fib_listing_string (spec_list_fib cur.spec))
                else Rib_glue.want_listing cur.rib in
       if sv <> canon_listing value then oracle label "fib" sv (canon_listing value)
@@ -162,7 +107,8 @@ let handle_obs label kind (value : string) =
       if sv <> join_sorted (items_of value) then oracle label "sl" sv value
   | "nodes" ->
       let mv = nodes_string cur.tree.nodes in
-      if mv <> join_sorted (items_of value) then diverge label "nodes" mv value;
+      let differ = if cur.kind = "fib" then mv <> join_sorted (items_of value) else canon_nodes mv <> canon_nodes value in
+      if differ then diverge label "nodes" mv value;
       cur.impl_nodes <- ent_map_of_string value
   | "pfx" ->
       let mv = join_sorted (List.map string_of_name cur.tree.pfx) in
@@ -174,7 +120,8 @@ let handle_obs label kind (value : string) =
         Printf.printf "MINIMAL %s %d T nodes=%s pfx=%s\n" cur.case_id cur.opno (nodes_string cur.impl_nodes) value
   | "real" ->
       let mv = nodes_string cur.ht.real in
-      if mv <> join_sorted (items_of value) then diverge label "real" mv value;
+      let differ = if cur.kind = "fib" then mv <> join_sorted (items_of value) else canon_nodes mv <> canon_nodes value in
+      if differ then diverge label "real" mv value;
       cur.impl_real <- ent_map_of_string value
   | "virt" ->
       let mv = join_sorted (List.map (fun (nm, md) -> string_of_name nm ^ "=" ^ string_of_int (int_of_nat md)) cur.ht.virt) in
